@@ -182,6 +182,21 @@ class Engine:
                 return r
         return None
 
+    def codec_for(self, v):
+        """codec of a collection element, from a sample value"""
+        from .coll import INT, REAL, STR, BOOL, Codec
+        if isinstance(v, SV):
+            if v.kind.startswith("u:"):
+                return Codec(v.e.sort(), wrap=lambda e, k=v.kind: SV(e, k))
+            return {"int": INT, "real": REAL, "str": STR, "bool": BOOL}[v.kind]
+        if isinstance(v, bool):
+            return BOOL
+        if isinstance(v, int):
+            return INT
+        if isinstance(v, float):
+            return REAL
+        raise OutOfSubset(f"no codec for element {v!r}")
+
     def loop_spec(self, fr, ordinal):
         return self.loop_specs.get((fr.func.__qualname__, ordinal))
 
